@@ -2431,7 +2431,10 @@ Theorem write_while_connecting s bufs :
 Proof.
   intros H Hc. unfold api_write.
   change (check_before_write (ev (EWrite (next_id s) (sumN bufs)) (set_next_id (S (next_id s)) s)))
-    with (check_before_write s). rewrite Hc. cbn. rewrite H. cbn. auto.
+    with (check_before_write s). rewrite Hc. cbv zeta.
+  match goal with |- context [if connecting ?x then _ else _] =>
+    change (connecting x) with (connecting s) end.
+  rewrite H. repeat split; reflexivity.
 Qed.
 
 (* ------------------------------------------------------------------ *)
@@ -2516,12 +2519,12 @@ Proof.
   - eapply Forall_impl; [|exact A]. intros r H Hs. destruct (H Hs) as (H1 & H2 & H3).
     split; [right; exact H1 | split; [rewrite Hn; exact H2|]].
     intros off len X. apply (H3 off len). apply Hin; simpl; auto.
-  - eapply Forall_impl; [|exact B]. intros r H Hs Hw. rewrite Hn. apply H; auto. apply Hin; simpl; auto.
+  - eapply Forall_impl; [|exact B]. intros r H Hs Hw. rewrite Hn. apply H; [exact Hs|]. apply Hin; [simpl; auto | exact Hw].
   - intros id H. rewrite Hn in H. right. apply C; auto.
   - intros id. rewrite Hn. apply D.
   - intros id l1 l2 off len H Hw. destruct (cons_split _ _ _ _ _ H) as [(_ & X & _)|(l1' & -> & H')].
     + subst e. destruct Hb.
-    + eapply E; eauto. apply Hin; simpl; auto.
+    + eapply E; [exact H' | apply Hin; [simpl; auto | exact Hw]].
   - intros id l1 l2 H. destruct (cons_split _ _ _ _ _ H) as [(_ & X & _)|(l1' & -> & H')].
     + subst e. destruct Hb.
     + eapply F; eauto.
@@ -2553,7 +2556,7 @@ Proof.
   - exact D.
   - intros id l1 l2 off len H Hin. destruct (cons_split _ _ _ _ _ H) as [(_ & X & _)|(l1' & -> & H')]; [discriminate|].
     destruct Hin as [X|X]; [|eapply E; eauto].
-    inversion X; subst. exfalso. apply (Hc off len). rewrite H'. apply in_or_app; right; left; auto.
+    injection X as Hid. exfalso. apply (Hc off len). rewrite H', Hid. apply in_or_app; right; left; reflexivity.
   - intros id l1 l2 H. destruct (cons_split _ _ _ _ _ H) as [(_ & X & _)|(l1' & -> & H')]; [discriminate|]. eapply F; eauto.
   - intros id l1 l2 H. destruct (cons_split _ _ _ _ _ H) as [(_ & X & _)|(l1' & -> & H')]; [discriminate|]. eapply G; eauto.
 Qed.
@@ -2609,7 +2612,7 @@ Proof.
     destruct (A' r'' Hr'' Hs'') as (X1 & X2 & X3). split; [right; exact X1 | split; [exact X2|]].
     intros o l [Y|Y]; [inversion Y; exfalso; eapply Hd; eauto | eapply X3; eauto].
   - constructor.
-    + intros _ [Y|Y]; [discriminate|]. rewrite Ei. apply Br; auto.
+    + intros _ [Y|Y]; [discriminate|]. rewrite Ei in *. apply Br; auto.
     + apply Forall_forall. intros r'' Hr'' Hs'' [Y|Y]; [discriminate|]. apply B'; auto.
   - intros id H. right. apply C; auto.
   - exact D.
@@ -2726,7 +2729,7 @@ Proof.
   - rewrite H in I. rewrite H. apply I5_fdfail; auto.
   - (* uv_write2 refused *)
     apply I5_boring; simpl; auto. apply I5_mark; auto.
-    + apply Hnochunk. intros e [<-|He]; [right; simpl; auto | left; exact He].
+    + apply Hnochunk. intros e0 [<-|He]; [right; simpl; auto | left; exact He].
     + apply I5_boring; simpl; auto.
   - (* uv_write2 enqueued *)
     apply I5_grow; cbn.
@@ -2735,7 +2738,7 @@ Proof.
       * intros off len [X|[X|X]]; try discriminate. apply (fresh_no_event _ _ Jf) in X. simpl in X. lia.
     + discriminate.
     + apply I5_mark; auto.
-      * apply Hnochunk. intros e [<-|He]; [right; simpl; auto | left; exact He].
+      * apply Hnochunk. intros e0 [<-|He]; [right; simpl; auto | left; exact He].
       * apply I5_boring; simpl; auto.
 Qed.
 
